@@ -13,6 +13,7 @@ fn main() {
     match args[1].as_str() {
         "dim" => dim::main(),
         "dim-env" => dim::main_env(),
+        "dim-run" => dim::main_run(),
         "list" => list::main(),
         other => {
             eprintln!("unknown subcommand {other}");
